@@ -8,10 +8,14 @@ import tempfile
 
 import common  # noqa: F401  (sets sys.path / PSYCLONE_CONFIG)
 
-LOOPDIRS = ("ompDo", "ompParallelDo", "ompLoop", "accLoop")
-KINDS = ("stmt", "block", "loop", "ompParallel", "ompDo", "ompParallelDo", "ompLoop", "ompSingle",
-         "ompMaster", "ompTaskloop", "ompTaskwait", "ompTarget", "accParallel", "accKernels",
-         "accData", "accLoop", "accEnterData")
+LOOPDIRS = ("ompDo", "ompParallelDo", "ompTeamsDPD", "ompLoop", "accLoop")
+# kinds carrying a number: collapse value (LOOPDIRS), loop dependence distance (loop), nowait (ompSingle)
+NUMBERED = LOOPDIRS + ("loop", "ompSingle")
+LEAVES = ("stmt", "astmt", "ompTaskwait", "ompDeclareTarget", "accEnterData", "accUpdate", "accRoutine")
+KINDS = ("stmt", "astmt", "block", "loop", "ompParallel", "ompDo", "ompParallelDo", "ompTeamsDPD", "ompLoop",
+         "ompSingle", "ompMaster", "ompTaskloop", "ompTask", "ompTaskwait", "ompTarget", "ompAtomic", "ompSimd",
+         "ompDeclareTarget", "accParallel", "accKernels", "accData", "accLoop", "accAtomic", "accEnterData",
+         "accUpdate", "accRoutine")
 
 
 class Unmodelled(Exception):
@@ -26,7 +30,11 @@ def _nodes():
 # ---------------------------------------------------------------- abstraction
 def _exact_kind(node):
     n = _nodes()
-    table = [(n.OMPParallelDoDirective, "ompParallelDo"), (n.OMPParallelDirective, "ompParallel"),
+    table = [(n.OMPTeamsDistributeParallelDoDirective, "ompTeamsDPD"), (n.DynamicOMPTaskDirective, "ompTask"),
+             (n.OMPAtomicDirective, "ompAtomic"), (n.OMPSimdDirective, "ompSimd"),
+             (n.OMPDeclareTargetDirective, "ompDeclareTarget"), (n.ACCAtomicDirective, "accAtomic"),
+             (n.ACCUpdateDirective, "accUpdate"), (n.ACCRoutineDirective, "accRoutine"),
+             (n.OMPParallelDoDirective, "ompParallelDo"), (n.OMPParallelDirective, "ompParallel"),
              (n.OMPDoDirective, "ompDo"), (n.OMPLoopDirective, "ompLoop"),
              (n.OMPSingleDirective, "ompSingle"), (n.OMPMasterDirective, "ompMaster"),
              (n.OMPTaskloopDirective, "ompTaskloop"), (n.OMPTaskwaitDirective, "ompTaskwait"),
@@ -53,6 +61,8 @@ def abstract_list(children, loopvars=()):
                 c = 0
                 if kind in LOOPDIRS:
                     c = node.collapse or 0
+                if kind == "ompSingle":
+                    c = 1 if node.nowait else 0
                 out.append([kind, c, abstract_list(node.dir_body.children, loopvars)])
             else:
                 out.append([kind, 0, []])
@@ -71,11 +81,34 @@ def abstract_list(children, loopvars=()):
             if node.else_body is not None:
                 raise Unmodelled("IfBlock with else")
             out.append(["block", 0, abstract_list(node.if_body.children, loopvars)])
-        elif isinstance(node, (n.Assignment, n.Call)):
+        elif isinstance(node, n.Assignment):
+            out.append(["astmt" if atomic_form(node) else "stmt", 0, []])
+        elif isinstance(node, n.Call):
             out.append(["stmt", 0, []])
         else:
             raise Unmodelled(type(node).__name__)
     return out
+
+
+def atomic_form(assign):
+    """Independent (syntactic) reading of OpenMP 4.5 section 2.13.6 / OpenACC 2.6 section 2.12 for an
+    atomic update statement: scalar-valued `x = x op expr`, `x = expr op x` or `x = intr(..x..)` with
+    op in + - * / .and. .or. .eqv. .neqv. and intr in max min iand ior ieor."""
+    n = _nodes()
+    lhs, rhs = assign.lhs, assign.rhs
+    if isinstance(lhs, n.ArrayReference) and any(isinstance(i, n.Range) for i in lhs.indices):
+        return False
+    if not isinstance(lhs, (n.ArrayReference, n.Reference)) or isinstance(lhs, n.StructureReference):
+        return False
+    ops = n.BinaryOperation.Operator
+    if isinstance(rhs, n.BinaryOperation):
+        if rhs.operator not in (ops.ADD, ops.SUB, ops.MUL, ops.DIV, ops.AND, ops.OR, ops.EQV, ops.NEQV):
+            return False
+        return lhs == rhs.children[0] or lhs == rhs.children[1]
+    if isinstance(rhs, n.IntrinsicCall):
+        i = n.IntrinsicCall.Intrinsic
+        return rhs.intrinsic in (i.MAX, i.MIN, i.IAND, i.IOR, i.IEOR) and any(lhs == a for a in rhs.children)
+    return False
 
 
 def abstract(routine):
@@ -92,7 +125,9 @@ def lean_term(forest):
     if not forest:
         return "nil"
     (k, c, ch), rest = forest[0], forest[1:]
-    kind = "(%s %d)" % (k, c) if k in LOOPDIRS + ("loop",) else k
+    kind = "(%s %d)" % (k, c) if k in NUMBERED else k
+    if k == "ompSingle":
+        kind = "(ompSingle %s)" % ("true" if c else "false")
     return "(cons %s %s %s)" % (kind, lean_term(ch), lean_term(rest))
 
 
@@ -155,8 +190,24 @@ def build(forest):
             sched.addchild(node)
             fill(node.loop_body, ch, depth + 1)
             return
+        if k == "astmt":
+            sched.addchild(n.Assignment.create(
+                n.ArrayReference.create(arr, [lit(1)]),
+                n.BinaryOperation.create(n.BinaryOperation.Operator.ADD, n.ArrayReference.create(arr, [lit(1)]),
+                                         n.Literal("1.0", REAL_TYPE))))
+            return
         if k == "ompTaskwait":
             sched.addchild(n.OMPTaskwaitDirective())
+            return
+        if k == "ompDeclareTarget":
+            sched.addchild(n.OMPDeclareTargetDirective())
+            return
+        if k == "accRoutine":
+            sched.addchild(n.ACCRoutineDirective())
+            return
+        if k == "accUpdate":
+            from psyclone.core import Signature
+            sched.addchild(n.ACCUpdateDirective([Signature("a")], "host"))
             return
         if k == "accEnterData":
             sched.addchild(n.ACCEnterDataDirective())
@@ -165,11 +216,16 @@ def build(forest):
             node = n.ACCDataDirective(parent=sched)
             sched.children.append(node)
         else:
-            node = {"ompParallel": lambda: n.OMPParallelDirective(),
+            node = {"ompParallel": lambda: n.OMPParallelDirective.create(),
                     "ompDo": lambda: n.OMPDoDirective(collapse=col),
                     "ompParallelDo": lambda: n.OMPParallelDoDirective(collapse=col),
                     "ompLoop": lambda: n.OMPLoopDirective(collapse=col),
-                    "ompSingle": lambda: n.OMPSingleDirective(),
+                    "ompSingle": lambda: n.OMPSingleDirective(nowait=bool(c)),
+                    "ompTeamsDPD": lambda: n.OMPTeamsDistributeParallelDoDirective(collapse=col),
+                    "ompTask": lambda: n.DynamicOMPTaskDirective(),
+                    "ompAtomic": lambda: n.OMPAtomicDirective(),
+                    "ompSimd": lambda: n.OMPSimdDirective(),
+                    "accAtomic": lambda: n.ACCAtomicDirective(),
                     "ompMaster": lambda: n.OMPMasterDirective(),
                     "ompTaskloop": lambda: n.OMPTaskloopDirective(),
                     "ompTarget": lambda: n.OMPTargetDirective(),
@@ -246,7 +302,8 @@ def gen_program(rng):
         idx = [vs[i] if i < len(vs) else "1" for i in range(3)]
         rng.shuffle(idx)
         arr = rng.choice("ab")
-        lines.append("%s%s(%s) = c(%s) + %d.0" % (ind, arr, ",".join(idx), ",".join(idx), rng.randint(1, 9)))
+        src = arr if rng.random() < 0.2 else "c"      # `x = x + k` is an atomic-form statement
+        lines.append("%s%s(%s) = %s(%s) + %d.0" % (ind, arr, ",".join(idx), src, ",".join(idx), rng.randint(1, 9)))
 
     def nest(depth, vs, ind):
         counter[0] += 1
@@ -265,6 +322,8 @@ def gen_program(rng):
                 stmt(inner, ind + "  ")
             if rng.random() < 0.1:
                 nest(depth - 1, inner, ind + "  ")
+        elif rng.random() < 0.04:
+            pass                                        # empty loop body
         else:
             for _ in range(rng.choice([1, 1, 2])):
                 stmt(inner, ind + "  ")
@@ -294,7 +353,8 @@ def parse(src):
 
 
 # ---------------------------------------------------------------- histories
-LOOP_OPS = ("ompDo", "ompParallelDo", "ompLoop", "ompTaskloop", "accLoop")
+LOOP_OPS = ("ompDo", "ompParallelDo", "ompTeamsDPD", "ompLoop", "ompTaskloop", "ompTask", "accLoop")
+ROUTINE_OPS = ("accEnterData", "ompDeclareTarget", "accRoutine")
 REGION_OPS = ("ompParallel", "ompSingle", "ompMaster", "ompTarget", "accParallel", "accKernels", "accData")
 
 
@@ -330,6 +390,8 @@ def gen_op(rng, routine, family="mixed"):
         for d in routine.walk(n.Directive):
             if isinstance(d, n.OMPTaskloopDirective) and not d.ancestor(n.OMPSerialDirective):
                 cands.append((d, rng.choice(["ompSingle", "ompMaster"]), False))
+            elif isinstance(d, n.DynamicOMPTaskDirective) and not d.ancestor(n.OMPSingleDirective):
+                cands.append((d, "ompSingle", False))
             elif isinstance(d, (n.OMPDoDirective, n.OMPSerialDirective, n.OMPLoopDirective)) and \
                     not isinstance(d, n.OMPParallelDirective) and not d.ancestor(n.OMPParallelDirective):
                 cands.append((d, rng.choice(["ompParallel", "ompParallel", "ompTarget"])
@@ -342,14 +404,15 @@ def gen_op(rng, routine, family="mixed"):
             if top and rng.random() < 0.7:
                 while node.parent is not routine:
                     node = node.parent
-            return {"op": op, "path": path_of(node.parent, routine), "range": [node.position, node.position + 1]}
+            return {"op": op, "path": path_of(node.parent, routine), "range": [node.position, node.position + 1],
+                    "nowait": False}
     r = rng.random()
     if r < 0.45:
         loops = routine.walk(n.Loop)
         if not loops:
             return None
         op = rng.choice([k for k in allowed if k in LOOP_OPS])
-        col = None if op == "ompTaskloop" else rng.choice([None, None, None, 2, 2, 3])
+        col = None if op in ("ompTaskloop", "ompTask") else rng.choice([None, None, None, 2, 2, 3])
         return {"op": op, "path": path_of(rng.choice(loops), routine), "collapse": col}
     if r < 0.93:
         op = rng.choice([k for k in allowed if k in REGION_OPS])
@@ -359,14 +422,20 @@ def gen_op(rng, routine, family="mixed"):
             if rng.random() < 0.6:
                 while node.parent is not routine:
                     node = node.parent
-            return {"op": op, "path": path_of(node.parent, routine), "range": [node.position, node.position + 1]}
+            return {"op": op, "path": path_of(node.parent, routine), "range": [node.position, node.position + 1],
+                    "nowait": op == "ompSingle" and rng.random() < 0.15}
         scheds = [s for s in routine.walk(n.Schedule) if s.children]
         sched = rng.choice(scheds)
         lo = rng.randrange(len(sched.children))
         hi = lo + 1 if rng.random() < 0.7 else rng.randint(lo + 1, len(sched.children))
-        return {"op": op, "path": path_of(sched, routine), "range": [lo, hi]}
-    if r < 0.96:
-        return {"op": "accEnterData"} if family != "omp" else None
+        return {"op": op, "path": path_of(sched, routine), "range": [lo, hi],
+                "nowait": op == "ompSingle" and rng.random() < 0.15}
+    if r < 0.965:
+        cands = [k for k in ROUTINE_OPS if family == "mixed" or k.startswith(family)]
+        return {"op": rng.choice(cands)} if cands else None
+    if r < 0.98 and family != "omp":
+        scheds = [s for s in routine.walk(n.Schedule) if s.children]
+        return {"op": "accUpdateTrans", "path": path_of(rng.choice(scheds), routine)}
     pars = routine.walk(n.OMPParallelDirective)
     if not pars:
         return None
@@ -392,6 +461,10 @@ def apply_op(routine, op):
                 PT.OMPLoopTrans(omp_directive="paralleldo").apply(node, opts)
             elif name == "ompLoop":
                 PT.OMPLoopTrans(omp_directive="loop").apply(node, opts)
+            elif name == "ompTeamsDPD":
+                PT.OMPLoopTrans(omp_directive="teamsdistributeparalleldo").apply(node, opts)
+            elif name == "ompTask":
+                PT.OMPTaskTrans().apply(node, opts)
             elif name == "ompTaskloop":
                 T.OMPTaskloopTrans().apply(node, opts)
             else:
@@ -400,6 +473,9 @@ def apply_op(routine, op):
             sched = resolve(routine, op["path"])
             lo, hi = op["range"]
             nodes = sched.children[lo:hi]
+            if name == "ompSingle" and op.get("nowait"):
+                T.OMPSingleTrans(nowait=True).apply(nodes)
+                return "applied"
             trans = {"ompParallel": T.OMPParallelTrans, "ompSingle": T.OMPSingleTrans,
                      "ompMaster": T.OMPMasterTrans, "ompTarget": PT.OMPTargetTrans,
                      "accParallel": T.ACCParallelTrans, "accKernels": PT.ACCKernelsTrans,
@@ -407,6 +483,12 @@ def apply_op(routine, op):
             trans.apply(nodes)
         elif name == "accEnterData":
             T.ACCEnterDataTrans().apply(routine)
+        elif name == "ompDeclareTarget":
+            T.OMPDeclareTargetTrans().apply(routine)
+        elif name == "accRoutine":
+            T.ACCRoutineTrans().apply(routine)
+        elif name == "accUpdateTrans":
+            PT.ACCUpdateTrans().apply(resolve(routine, op["path"]))
         elif name == "ompTaskwaitTrans":
             PT.OMPTaskwaitTrans().apply(resolve(routine, op["path"]))
         else:
@@ -423,3 +505,57 @@ def run_history(src, ops):
     root, routine = parse(src)
     statuses = [apply_op(routine, op) for op in ops]
     return root, routine, statuses
+
+
+# ---------------------------------------------------------------- operations of the Lean model
+def abs_path(node, routine):
+    """Sibling indices of the statement-level nodes from the routine down to `node` (inclusive)."""
+    p = []
+    while node is not routine:
+        p.append(node.position)
+        sched = node.parent
+        if sched is routine:
+            break
+        node = sched.parent
+    return list(reversed(p))
+
+
+def sched_abs_path(sched, routine):
+    return [] if sched is routine else abs_path(sched.parent, routine)
+
+
+def model_op(routine, op):
+    """The operation in the vocabulary of C10.Op (to be computed BEFORE the real transformation is
+    applied); None for transformations that insert stand-alone directives (see leaf_inserts)."""
+    name = op["op"]
+    if name in LOOP_OPS:
+        node = resolve(routine, op["path"])
+        return ["loopDir", name, op.get("collapse") or 0, sched_abs_path(node.parent, routine), node.position]
+    if name in REGION_OPS:
+        sched = resolve(routine, op["path"])
+        lo, hi = op["range"]
+        return ["region", name, 1 if op.get("nowait") else 0, sched_abs_path(sched, routine), lo, hi - lo]
+    return None
+
+
+def leaf_inserts(before, after, path=()):
+    """Stand-alone directive insertions (in application order) that turn forest `before` into
+    `after`; None if the difference is anything else."""
+    ops, j = [], 0
+    for i, (k, c, ch) in enumerate(after):
+        if j < len(before) and before[j][0] == k and before[j][1] == c:
+            sub = leaf_inserts(before[j][2], ch, tuple(path) + (i,))
+            if sub is None:
+                return None
+            ops += sub
+            j += 1
+        elif k in ("ompTaskwait", "ompDeclareTarget", "accEnterData", "accUpdate", "accRoutine") and not ch:
+            ops.append(["leaf", k, 0, list(path), i])
+        else:
+            return None
+    return ops if j == len(before) else None
+
+
+def op_sx(mop):
+    head, kind, num, path = mop[0], mop[1], mop[2], mop[3]
+    return "(%s %s %d (%s) %s)" % (head, kind, num, " ".join(map(str, path)), " ".join(map(str, mop[4:])))
